@@ -214,25 +214,29 @@ def FCmp.fn (f : FCmp) (x y : FVal) : Bool :=
 
 def fneg (x : FVal) : FVal := ⟨(-(Float.ofBits x.bits)).toBits⟩
 
-/-- float expression trees (arithmetic; a comparison may sit at the root) -/
-inductive FExpr
+/-- arithmetic expression trees over values of type `V` (floats: `V = FVal`; a comparison may sit at the root) -/
+inductive FExpr (V : Type)
   | leaf (i : Nat)
-  | neg (a : FExpr)
-  | bin (f : FOp) (a b : FExpr)
-  | scr (f : FOp) (a : FExpr) (k : FVal)
+  | neg (a : FExpr V)
+  | bin (f : FOp) (a b : FExpr V)
+  | scr (f : FOp) (a : FExpr V) (k : V)
 
-def FExpr.eval (leaves : List (Rle FVal)) : FExpr → Rle FVal
+/-- evaluation on run-length arrays with the engine's equality test `eq`, negation `ng` and arithmetic `op` -/
+def FExpr.evalG {V : Type} (eq : V → V → Bool) (ng : V → V) (op : FOp → V → V → V) (leaves : List (Rle V)) : FExpr V → Rle V
   | .leaf i => leaves.getD i ⟨[0], []⟩
-  | .neg a => mapRle fneg (a.eval leaves)
-  | .bin f a b => zipRleBy ieeeEq f.fn (a.eval leaves) (b.eval leaves)
-  | .scr f a k => mapRle (fun x => f.fn x k) (a.eval leaves)
+  | .neg a => mapRle ng (a.evalG eq ng op leaves)
+  | .bin f a b => zipRleBy eq (op f) (a.evalG eq ng op leaves) (b.evalG eq ng op leaves)
+  | .scr f a k => mapRle (fun x => op f x k) (a.evalG eq ng op leaves)
 
 /-- the same tree on dense arrays (what NumPy computes element by element) -/
-def FExpr.denote (leaves : List (List FVal)) : FExpr → List FVal
+def FExpr.denoteG {V : Type} (ng : V → V) (op : FOp → V → V → V) (leaves : List (List V)) : FExpr V → List V
   | .leaf i => leaves.getD i []
-  | .neg a => (a.denote leaves).map fneg
-  | .bin f a b => List.zipWith f.fn (a.denote leaves) (b.denote leaves)
-  | .scr f a k => (a.denote leaves).map (fun x => f.fn x k)
+  | .neg a => (a.denoteG ng op leaves).map ng
+  | .bin f a b => List.zipWith (op f) (a.denoteG ng op leaves) (b.denoteG ng op leaves)
+  | .scr f a k => (a.denoteG ng op leaves).map (fun x => op f x k)
+
+/-- float64 genomic arrays: IEEE arithmetic, `join_runs` with IEEE `==` -/
+def FExpr.eval (leaves : List (Rle FVal)) (e : FExpr FVal) : Rle FVal := e.evalG ieeeEq fneg FOp.fn leaves
 
 /-! ### `GenomicArrayGlobal` on int64 / bool: typed expression trees; ufuncs are forwarded to the run-length engine -/
 
